@@ -19,10 +19,11 @@ CONSTANTS Cats,        \* categories
           CatOf,       \* [recording number -> category] for the recordings in the cassette
           Incomplete,  \* set of recording numbers flagged incomplete
           Limits,      \* lookup limits (0 = none)
+          MaxEdited,   \* at most this many categories whose code changed between recording and replay
           SharedTuning
 
-VARIABLES mode, order, failing, limit, todo, played, started, pc
-vars == <<mode, order, failing, limit, todo, played, started, pc>>
+VARIABLES mode, order, failing, edited, limit, todo, played, started, pc
+vars == <<mode, order, failing, edited, limit, todo, played, started, pc>>
 
 Recs == DOMAIN CatOf
 Perms(S) == {p \in [1 .. Cardinality(S) -> S] : \A a, b \in 1 .. Cardinality(S) : a # b => p[a] # p[b]}
@@ -32,6 +33,7 @@ Min(a, b) == IF a < b THEN a ELSE b
 Init ==
     /\ mode \in {"explicit", "lookup"}
     /\ failing \in SUBSET Cats
+    /\ edited \in {e \in SUBSET Cats : Cardinality(e) <= MaxEdited}
     /\ limit \in Limits
     /\ (mode = "explicit" => limit = 0)
     /\ order \in UNION {Perms(S) : S \in (SUBSET Recs) \ {{}}}
@@ -48,18 +50,22 @@ Play ==
     /\ pc = "init"
     /\ todo' = [c \in Cats |-> IF c \in failing THEN <<>> ELSE Selected(c)]
     /\ pc' = "playing"
-    /\ UNCHANGED <<mode, order, failing, limit, played, started>>
+    /\ UNCHANGED <<mode, order, failing, edited, limit, played, started>>
 
 Consume(c) ==
     /\ pc = "playing" /\ todo[c] # <<>>
     /\ started' = IF \E k \in 1 .. Len(started) : started[k] = c THEN started ELSE Append(started, c)
     /\ LET tuning == IF SharedTuning THEN started'[Len(started')] ELSE c IN
-       played' = Append(played, [rec |-> Head(todo[c]), stream |-> c, tuning |-> tuning])
+       \* end to end: a recording replayed on unchanged code compares Equal, on code whose result changed Different
+       \* (a recording cut short has no recorded result to compare with: Different)
+       played' = Append(played, [rec |-> Head(todo[c]), stream |-> c, tuning |-> tuning,
+                                 verdict |-> IF CatOf[Head(todo[c])] \in edited \/ Head(todo[c]) \in Incomplete
+                                             THEN "Different" ELSE "Equal"])
     /\ todo' = [todo EXCEPT ![c] = Tail(@)]
-    /\ UNCHANGED <<mode, order, failing, limit, pc>>
+    /\ UNCHANGED <<mode, order, failing, edited, limit, pc>>
 
 Finish == /\ pc = "playing" /\ \A c \in Cats : todo[c] = <<>> /\ pc' = "done"
-          /\ UNCHANGED <<mode, order, failing, limit, todo, played, started>>
+          /\ UNCHANGED <<mode, order, failing, edited, limit, todo, played, started>>
 
 Next == Play \/ (\E c \in Cats : Consume(c)) \/ Finish
 Spec == Init /\ [][Next]_vars
@@ -70,5 +76,8 @@ EachOnce == pc = "done" =>
     \A c \in Cats \ failing : \A r \in {Selected(c)[k] : k \in 1 .. Len(Selected(c))} :
         Cardinality({k \in 1 .. Len(played) : played[k].rec = r}) = 1
 FailureIsLocal == \A k \in 1 .. Len(played) : CatOf[played[k].rec] \notin failing
+\* regression detection end to end: exactly the recordings of changed code (and the cut-short ones) differ
+VerdictsExact == \A k \in 1 .. Len(played) :
+    (played[k].verdict = "Different") <=> (CatOf[played[k].rec] \in edited \/ played[k].rec \in Incomplete)
 LookupStaysInCategory == mode = "lookup" => \A c \in Cats : \A k \in 1 .. Len(Selected(c)) : CatOf[Selected(c)[k]] = c
 =============================================================================
